@@ -34,10 +34,10 @@ const char* const FORM_NAME[] = {"binary", "compound", "unary-", "unary+"};
 
 constexpr double C_ADD = 2, C_MUL = 6, C_DIV = 12;
 
-// `-arr_cmplx` does not compile on the pinned tree (array.h operator-(): `base_array<T> r{_vec}` picks the
-// initializer_list constructor through cmplx_t's unconstrained converting constructor).  Set to 1 once the library is repaired.
+// `-arr_cmplx` did not compile before repo commit a9934c7 (array.h operator-(): `base_array<T> r{_vec}` picked the
+// initializer_list constructor through cmplx_t's unconstrained converting constructor).  0 = leave that overload out.
 #ifndef C03_CMPLX_NEG
-#define C03_CMPLX_NEG 0
+#define C03_CMPLX_NEG 1
 #endif
 
 // ------------------------------------------------------------------------------------------- which overloads exist
@@ -1161,7 +1161,7 @@ namespace {
 enum CopyHow { CH_CTOR = 0, CH_ASSIGN, CH_ASSIGN_OVER, CH_VIA_VECTOR, CH_N };
 const char* const CH_NAME[] = {"copy-construct", "copy-assign to empty", "copy-assign over another", "through to_vec()/vector ctor"};
 enum Mut { MU_ELEM = 0, MU_SCALAR_OP, MU_ARRAY_OP, MU_BAR_EQ, MU_NEG_ASSIGN, MU_DATA, MU_N };
-const char* const MU_NAME[] = {"element write", "op= scalar", "op= array", "|= array", "b = -b (b = b*-1 for arr_cmplx)", "write through data()/iterators"};
+const char* const MU_NAME[] = {"element write", "op= scalar", "op= array", "|= array", "b = -b", "write through data()/iterators"};
 
 template<class T>
 void mutate(base_array<T>& b, int mut, int op, Rng& r) {
